@@ -275,6 +275,10 @@ const MUTATIONS: &[&str] = &[
     "directive-wrong-location", "directive-repeated", "directive-bad-arg", "directive-missing-arg", "directive-unknown-arg",
     "unspread-fragment-bad-field", "same-interface-inline-bad-field", "undefined-var-in-custom-scalar",
     "int-out-of-range",
+    // multi-operation documents sharing a fragment that uses a variable (the fragment's body has to be validated
+    // in the scope of EVERY operation that spreads it)
+    "shared-fragment-var-undeclared", "shared-fragment-var-incompatible", "shared-fragment-var-nullable",
+    "shared-fragment-var-undeclared", "shared-fragment-var-incompatible",
 ];
 
 fn inject(rng: &mut Rng, s: &Schema, doc: &mut Doc, kind: &str) -> Option<Fault> {
@@ -377,6 +381,60 @@ fn inject(rng: &mut Rng, s: &Schema, doc: &mut Doc, kind: &str) -> Option<Fault>
                 }
             }
             None
+        }
+        "shared-fragment-var-undeclared" | "shared-fragment-var-incompatible" | "shared-fragment-var-nullable" => {
+            // two (or three) operations over the same root field, one shared fragment whose field takes `$sv`
+            // (directly, or through a second fragment); exactly one operation, first or later, is faulty
+            let q = s.query.clone();
+            // (path field to reach parent P from the query root, P, field with arguments on P)
+            let mut cands: Vec<(Option<Field>, String, Field)> = vec![];
+            for f in s.fields_of(&q) { if !f.args.is_empty() { cands.push((None, q.clone(), f.clone())); } }
+            for r in s.fields_of(&q) {
+                if !r.args.iter().all(|a| !(a.ty.is_nonnull() && a.default.is_none())) { continue; }
+                let p = r.ty.named().to_string();
+                if !s.is_composite(&p) { continue; }
+                for f in s.fields_of(&p) { if !f.args.is_empty() { cands.push((Some(r.clone()), p.clone(), f.clone())); } }
+            }
+            let need_nonnull = kind == "shared-fragment-var-nullable";
+            let cands: Vec<_> = cands.into_iter().filter(|(_, _, f)| f.args.iter().any(|a| !need_nonnull || (a.ty.is_nonnull() && a.default.is_none()))).collect();
+            if cands.is_empty() { return None; }
+            let (path, parent, f) = rng.pick(&cands).clone();
+            let pick: Vec<&Arg> = f.args.iter().filter(|a| !need_nonnull || (a.ty.is_nonnull() && a.default.is_none())).collect();
+            let a = (*rng.pick(&pick)).clone();
+            let mut args = vec![(a.name.clone(), "$sv".to_string())];
+            for o in &f.args { if o.name != a.name && o.ty.is_nonnull() && o.default.is_none() { args.push((o.name.clone(), valid_lit(rng, s, &o.ty))); } }
+            let sub = if s.is_composite(f.ty.named()) { Some(vec![Sel::Field { alias: None, name: "__typename".into(), args: vec![], dirs: vec![], sub: None }]) } else { None };
+            let use_sel = Sel::Field { alias: Some("kv".into()), name: f.name.clone(), args, dirs: vec![], sub };
+            let transitive = rng.chance(1, 2);
+            let mut frags = vec![];
+            if transitive {
+                frags.push(Frag { name: "SF".into(), cond: parent.clone(), dirs: vec![], sel: vec![Sel::Field { alias: None, name: "__typename".into(), args: vec![], dirs: vec![], sub: None }, Sel::Spread { name: "SG".into(), dirs: vec![] }] });
+                frags.push(Frag { name: "SG".into(), cond: parent.clone(), dirs: vec![], sel: vec![use_sel] });
+            } else {
+                frags.push(Frag { name: "SF".into(), cond: parent.clone(), dirs: vec![], sel: vec![use_sel] });
+            }
+            let n_ops = rng.range(2, 3);
+            let faulty = rng.below(n_ops);
+            let good_ty = a.ty.render();
+            let mut ops = vec![];
+            for i in 0..n_ops {
+                let vars = if i != faulty { vec![VarDef { name: "sv".into(), ty: good_ty.clone(), default: None, dirs: vec![] }] } else {
+                    match kind {
+                        "shared-fragment-var-undeclared" => vec![],
+                        "shared-fragment-var-incompatible" => vec![VarDef { name: "sv".into(), ty: format!("[{}]", good_ty), default: None, dirs: vec![] }],
+                        _ => vec![VarDef { name: "sv".into(), ty: a.ty.nullable().render(), default: None, dirs: vec![] }],
+                    }
+                };
+                let spread = Sel::Spread { name: "SF".into(), dirs: vec![] };
+                let sel = match &path {
+                    None => vec![spread],
+                    Some(r) => vec![Sel::Field { alias: None, name: r.name.clone(), args: vec![], dirs: vec![], sub: Some(vec![spread]) }],
+                };
+                ops.push(Op { kind: "query".into(), name: Some(format!("S{}", i)), vars, dirs: vec![], sel, shorthand: false });
+            }
+            *doc = Doc { ops, frags, features: vec![] };
+            let rule = if kind == "shared-fragment-var-undeclared" { "vars_defined" } else { "var_usage_compatible" };
+            Some(Fault { rule, what: format!("{} operations share fragment SF{} using $sv: {}; operation {} is the faulty one", n_ops, if transitive { " (through SG)" } else { "" }, good_ty, faulty), site: Site::Doc })
         }
         "int-out-of-range" => {
             // an Int argument (possibly inside a list) gets a literal outside the signed 32-bit range (/repo commit 556742c)
@@ -804,6 +862,8 @@ fn corpus() -> Vec<(&'static str, &'static str, Vec<&'static str>, &'static str)
         // Field Selection Merging is not implemented by check (and not in C03's rule list): accepted, `generate` then panics (C08)
         (S1, "query Q { x: i { id } x: a { id } }\n", vec![], "two different fields under one response key (not checked: Field Selection Merging)"),
         (S1, "query Q { x: n(x: 1) x: a { id } }\n", vec![], "a leaf and an object under one response key (not checked: Field Selection Merging)"),
+        // a fragment shared by two operations is validated in the scope of each of them
+        (S1, "query A($n: Int!) { a { ...UP } }\nquery B { a { ...UP } }\nquery C($n: String) { a { ...UP } }\nquery D($n: Int) { a { ...UQ } }\nfragment UP on A { a(q: {must: $n}) }\nfragment UQ on A { ...UP }\n", vec![], "shared fragment using a variable: undeclared in B, wrong type in C, nullable in D (through UQ)"),
     ]
 }
 
